@@ -986,7 +986,7 @@ func (vfs *OrefaFS) Stat(path string) (fs.FileInfo, error) {
 // stat is the internal function used by Stat and Lstat.
 func (vfs *OrefaFS) stat(path, op string) (fs.FileInfo, error) {
 	absPath, _ := vfs.Abs(path)
-	dirName, fileName := avfs.SplitAbs(vfs, absPath)
+	dirName, _ := avfs.SplitAbs(vfs, absPath)
 
 	// the index stays locked until the information is read, so that the node can't be removed in between.
 	vfs.mu.RLock()
@@ -1008,12 +1008,8 @@ func (vfs *OrefaFS) stat(path, op string) (fs.FileInfo, error) {
 		return nil, &fs.PathError{Op: op, Path: path, Err: vfs.err.NotADirectory}
 	}
 
-	if fileName == "" {
-		// the name of a root directory is the path separator.
-		fileName = string(vfs.PathSeparator())
-	}
-
-	fst := child.fillStatFrom(fileName)
+	// the name is the last element of the path as it was given ("." for ".", the separator for a root directory).
+	fst := child.fillStatFrom(vfs.Base(path))
 
 	return fst, nil
 }
